@@ -231,5 +231,12 @@ def check(s):
     # compute_returns_and_advantages returns - the collected buffer with only returns / advantages filled in
     from .C03 import check_estimator_keeps_record
     check_estimator_keeps_record(s, "C04.13")
-    for r, n in (("C04.13", 1), ("C04.1", 4), ("C04.2", 8), ("C04.3", 4), ("C04.4", 2), ("C04.5", 4), ("C04.6", 4), ("C04.7", 6), ("C04.8", 7), ("C04.9", 6), ("C04.10", 7), ("C04.11", 30)):
+    # ---- C04.14 the stored action is the one the policy drew and scored: the class index survives the trip out of the law (not the
+    # wrapped library's int8-narrowed draw: above 127 actions the stored action would be a wrapped index with log-probability -inf), and
+    # "masks offered by the environment are ... applied": the head applies the mask for every maskable law
+    from .C15 import check_index_width
+    check_index_width(s, "C04.14")
+    from .C16 import check_mask_gate
+    check_mask_gate(s, "C04.14")
+    for r, n in (("C04.14", 10), ("C04.13", 1), ("C04.1", 4), ("C04.2", 8), ("C04.3", 4), ("C04.4", 2), ("C04.5", 4), ("C04.6", 4), ("C04.7", 6), ("C04.8", 7), ("C04.9", 6), ("C04.10", 7), ("C04.11", 30)):
         s.floor(r, n)
